@@ -362,4 +362,251 @@ theorem inv_internalSuspend {d : Daemon} (h : Inv d) (i : Id) (hi : i ∈ d.conn
       all_goals
         simp [internalSuspend, hr, Daemon.remTimeout, ht, Daemon.remManual, hmm, Daemon.remConns, hi, he', key _ hnn]
 
+
+/-! ### cleanup_connection -/
+
+theorem others_cleanupConnection (d : Daemon) (i : Id) : Others i d (cleanupConnection d i) := by
+  unfold cleanupConnection Daemon.remTimeout Daemon.remNormal Daemon.remManual Daemon.remConns Daemon.remSusp
+  dsimp only
+  repeat' split
+  all_goals first
+    | exact Others.refl i d
+    | (refine ⟨rfl, rfl, rfl, rfl, ?_⟩; intro j hj; simp [hj, mem_erase_ne hj]; try grind)
+
+theorem inv_cleanupConnection {d : Daemon} (h : Inv d) (i : Id) (hi : i ∈ d.conns ∨ i ∈ d.cleanup) :
+    Inv (cleanupConnection d i) := by
+  by_cases hcl : i ∈ d.cleanup
+  · simp [cleanupConnection, hcl]; exact h
+  have hi : i ∈ d.conns := by rcases hi with x | x; exact x; exact absurd x hcl
+  have hs : (d.c i).suspended = false := h.connsS i hi
+  have key : ∀ (l : List Id), i ∉ l → l.erase i = l := fun l hl => List.erase_of_not_mem hl
+  by_cases ht : (d.c i).tmo = d.cfg.dtmo
+  · have hin : i ∈ d.normal := mem_normal_of_conns h hi ht
+    have hnm : i ∉ d.manual := fun hm => h.manualT i hm ht
+    apply inv_deactivate h i hi false
+    case hnde => simpa [cleanupConnection, hcl, hs, Daemon.remTimeout, ht, Daemon.remNormal, hin, Daemon.remConns, hi] using h.ndEready
+    case hnep => simpa [cleanupConnection, hcl, hs, Daemon.remTimeout, ht, Daemon.remNormal, hin, Daemon.remConns, hi] using h.nonEpoll
+    case hrdy =>
+      intro j hj
+      simp [cleanupConnection, hcl, hs, Daemon.remTimeout, ht, Daemon.remNormal, hin, Daemon.remConns, hi] at hj
+      exact ⟨Or.inr rfl, hj⟩
+    case hc =>
+      intro j hj
+      simp [cleanupConnection, hcl, hs, Daemon.remTimeout, ht, Daemon.remNormal, hin, Daemon.remConns, hi, hj]
+    all_goals
+      simp [cleanupConnection, hcl, hs, Daemon.remTimeout, ht, Daemon.remNormal, hin, Daemon.remConns, hi, key _ hnm]
+  · have hnn : i ∉ d.normal := fun hm => ht (h.normalT i hm)
+    have hmm : i ∈ d.manual := mem_manual_of_conns h hi ht
+    apply inv_deactivate h i hi false
+    case hnde => simpa [cleanupConnection, hcl, hs, Daemon.remTimeout, ht, Daemon.remManual, hmm, Daemon.remConns, hi] using h.ndEready
+    case hnep => simpa [cleanupConnection, hcl, hs, Daemon.remTimeout, ht, Daemon.remManual, hmm, Daemon.remConns, hi] using h.nonEpoll
+    case hrdy =>
+      intro j hj
+      simp [cleanupConnection, hcl, hs, Daemon.remTimeout, ht, Daemon.remManual, hmm, Daemon.remConns, hi] at hj
+      exact ⟨Or.inr rfl, hj⟩
+    case hc =>
+      intro j hj
+      simp [cleanupConnection, hcl, hs, Daemon.remTimeout, ht, Daemon.remManual, hmm, Daemon.remConns, hi, hj]
+    all_goals
+      simp [cleanupConnection, hcl, hs, Daemon.remTimeout, ht, Daemon.remManual, hmm, Daemon.remConns, hi, key _ hnn]
+
+theorem cleanupConnection_mem {d : Daemon} (h : Inv d) (i : Id) (hi : i ∈ d.conns ∨ i ∈ d.cleanup) :
+    i ∈ (cleanupConnection d i).cleanup ∧ i ∉ (cleanupConnection d i).conns := by
+  by_cases hcl : i ∈ d.cleanup
+  · simp [cleanupConnection, hcl]; exact (h.disjClean i hcl).1
+  have hi : i ∈ d.conns := by rcases hi with x | x; exact x; exact absurd x hcl
+  have hs : (d.c i).suspended = false := h.connsS i hi
+  have hne := List.Nodup.not_mem_erase (a := i) h.ndConns
+  by_cases ht : (d.c i).tmo = d.cfg.dtmo
+  · have hin : i ∈ d.normal := mem_normal_of_conns h hi ht
+    simp [cleanupConnection, hcl, hs, Daemon.remTimeout, ht, Daemon.remNormal, hin, Daemon.remConns, hi, hne]
+  · have hmm : i ∈ d.manual := mem_manual_of_conns h hi ht
+    simp [cleanupConnection, hcl, hs, Daemon.remTimeout, ht, Daemon.remManual, hmm, Daemon.remConns, hi, hne]
+
+/-! ### resume_suspended_connections -/
+
+theorem others_resumeOne (d : Daemon) (i : Id) : Others i d (resumeOne d i) := by
+  unfold resumeOne Daemon.remSusp Daemon.insTimeout
+  dsimp only
+  repeat' split
+  all_goals first
+    | exact Others.refl i d
+    | (refine ⟨rfl, rfl, rfl, rfl, ?_⟩; intro j hj; simp [hj, mem_erase_ne hj])
+
+theorem inv_resumeOne {d : Daemon} (h : Inv d) (i : Id) (hi : i ∈ d.susp) : Inv (resumeOne d i) := by
+  by_cases hr : (d.c i).resuming = false
+  · simp [resumeOne, hr]; exact h
+  have hs : (d.c i).suspended = true := h.suspS i hi
+  have hnc : i ∉ d.conns := fun hc => by have := h.connsS i hc; simp [hs] at this
+  have hnn : i ∉ d.newL := fun hc => (h.disjNew i hc).2.1 hi
+  have hncl : i ∉ d.cleanup := fun hc => (h.disjClean i hc).2 hi
+  have hu : i ∈ d.used := h.usedAll i (Or.inr (Or.inr (Or.inl hi)))
+  have hne : i ∉ d.eready := fun he => by rcases h.ready i (Or.inl he) with x | x; exact hnc x; exact hncl x
+  have hla : (if (d.c i).tmo = 0 then (d.c i).la else d.now) ≤ d.now := by
+    split; exact h.laLe i; exact Nat.le_refl _
+  by_cases he : d.cfg.epoll = true
+  · by_cases ht : (d.c i).tmo = d.cfg.dtmo
+    · apply inv_activate h i hnc hncl hnn hu
+      case hnde => simp [resumeOne, hr, Daemon.remSusp, hi, Daemon.insTimeout, he, ht]; exact ⟨hne, h.ndEready⟩
+      case hnep => simp [resumeOne, hr, Daemon.remSusp, hi, Daemon.insTimeout, he, ht]
+      case hrdy =>
+        intro j hj; simp [resumeOne, hr, Daemon.remSusp, hi, Daemon.insTimeout, he, ht] at hj; grind
+      case hc => intro j hj; simp [resumeOne, hr, Daemon.remSusp, hi, Daemon.insTimeout, he, ht, hj]
+      case hxl => simpa [resumeOne, hr, Daemon.remSusp, hi, Daemon.insTimeout, he, ht] using hla
+      case hxt => simpa [resumeOne, hr, Daemon.remSusp, hi, Daemon.insTimeout, he, ht] using h.dtmoB
+      case hhead =>
+        intro _ hd; simp [resumeOne, hr, Daemon.remSusp, hi, Daemon.insTimeout, he, ht, hd]
+      all_goals simp [resumeOne, hr, Daemon.remSusp, hi, Daemon.insTimeout, he, ht]
+    · apply inv_activate h i hnc hncl hnn hu
+      case hnde => simp [resumeOne, hr, Daemon.remSusp, hi, Daemon.insTimeout, he, ht]; exact ⟨hne, h.ndEready⟩
+      case hnep => simp [resumeOne, hr, Daemon.remSusp, hi, Daemon.insTimeout, he, ht]
+      case hrdy =>
+        intro j hj; simp [resumeOne, hr, Daemon.remSusp, hi, Daemon.insTimeout, he, ht] at hj; grind
+      case hc => intro j hj; simp [resumeOne, hr, Daemon.remSusp, hi, Daemon.insTimeout, he, ht, hj]
+      case hxl => simpa [resumeOne, hr, Daemon.remSusp, hi, Daemon.insTimeout, he, ht] using hla
+      case hxt => simpa [resumeOne, hr, Daemon.remSusp, hi, Daemon.insTimeout, he, ht] using h.tmoB i
+      case hhead =>
+        intro hx; simp [resumeOne, hr, Daemon.remSusp, hi, Daemon.insTimeout, he, ht] at hx
+      all_goals simp [resumeOne, hr, Daemon.remSusp, hi, Daemon.insTimeout, he, ht]
+  · have he' : d.cfg.epoll = false := by simpa using he
+    by_cases ht : (d.c i).tmo = d.cfg.dtmo
+    · apply inv_activate h i hnc hncl hnn hu
+      case hnde => simpa [resumeOne, hr, Daemon.remSusp, hi, Daemon.insTimeout, he', ht] using h.ndEready
+      case hnep => simpa [resumeOne, hr, Daemon.remSusp, hi, Daemon.insTimeout, he', ht] using h.nonEpoll
+      case hrdy =>
+        intro j hj; simp [resumeOne, hr, Daemon.remSusp, hi, Daemon.insTimeout, he', ht] at hj; grind
+      case hc => intro j hj; simp [resumeOne, hr, Daemon.remSusp, hi, Daemon.insTimeout, he', ht, hj]
+      case hxl => simpa [resumeOne, hr, Daemon.remSusp, hi, Daemon.insTimeout, he', ht] using hla
+      case hxt => simpa [resumeOne, hr, Daemon.remSusp, hi, Daemon.insTimeout, he', ht] using h.dtmoB
+      case hhead =>
+        intro _ hd; simp [resumeOne, hr, Daemon.remSusp, hi, Daemon.insTimeout, he', ht, hd]
+      all_goals simp [resumeOne, hr, Daemon.remSusp, hi, Daemon.insTimeout, he', ht]
+    · apply inv_activate h i hnc hncl hnn hu
+      case hnde => simpa [resumeOne, hr, Daemon.remSusp, hi, Daemon.insTimeout, he', ht] using h.ndEready
+      case hnep => simpa [resumeOne, hr, Daemon.remSusp, hi, Daemon.insTimeout, he', ht] using h.nonEpoll
+      case hrdy =>
+        intro j hj; simp [resumeOne, hr, Daemon.remSusp, hi, Daemon.insTimeout, he', ht] at hj; grind
+      case hc => intro j hj; simp [resumeOne, hr, Daemon.remSusp, hi, Daemon.insTimeout, he', ht, hj]
+      case hxl => simpa [resumeOne, hr, Daemon.remSusp, hi, Daemon.insTimeout, he', ht] using hla
+      case hxt => simpa [resumeOne, hr, Daemon.remSusp, hi, Daemon.insTimeout, he', ht] using h.tmoB i
+      case hhead =>
+        intro hx; simp [resumeOne, hr, Daemon.remSusp, hi, Daemon.insTimeout, he', ht] at hx
+      all_goals simp [resumeOne, hr, Daemon.remSusp, hi, Daemon.insTimeout, he', ht]
+
+
+/-! ### new_connection_process_ -/
+
+theorem others_processOneNew (v : Variant) (d : Daemon) (i : Id) : Others i d (processOneNew v d i) := by
+  unfold processOneNew
+  dsimp only
+  repeat' split
+  all_goals (refine ⟨rfl, rfl, rfl, rfl, ?_⟩; intro j hj; simp [hj])
+
+/-- what is known about a connection waiting in the queue of new connections -/
+def Fresh (d : Daemon) (i : Id) : Prop :=
+  i ∉ d.conns ∧ i ∉ d.susp ∧ i ∉ d.cleanup ∧ i ∉ d.newL ∧ i ∈ d.used ∧
+    (d.c i).tmo = d.cfg.dtmo ∧ (d.c i).suspended = false
+
+theorem inv_processOneNew {v : Variant} (hv : Fixed v) {d : Daemon} (h : Inv d) (i : Id) (hf : Fresh d i) :
+    Inv (processOneNew v d i) := by
+  obtain ⟨_, _, v3, _⟩ := hv
+  obtain ⟨hnc, hns, hncl, hnn, hu, ht, hs⟩ := hf
+  have hne : i ∉ d.eready := fun he => by rcases h.ready i (Or.inl he) with x | x; exact hnc x; exact hncl x
+  have hla : (if (d.c i).tmo = 0 then (d.c i).la else d.now) ≤ d.now := by
+    split; exact h.laLe i; exact Nat.le_refl _
+  have hse : d.susp.erase i = d.susp := List.erase_of_not_mem hns
+  by_cases he : d.cfg.epoll = true
+  · apply inv_activate h i hnc hncl hnn hu
+    case hnde => simpa [processOneNew, he] using h.ndEready
+    case hnep => simp [processOneNew, he]
+    case hrdy => intro j hj; simp [processOneNew, he] at hj; grind
+    case hc => intro j hj; simp [processOneNew, he, hj]
+    case hxl => simpa [processOneNew, he, v3, ht] using hla
+    case hxt => simpa [processOneNew, he, ht] using h.dtmoB
+    case hhead => intro _ hd; simp [processOneNew, he, v3, ht, hd]
+    case hxs => simp [processOneNew, he, hs]
+    all_goals simp [processOneNew, he, ht, hse]
+  · have he' : d.cfg.epoll = false := by simpa using he
+    apply inv_activate h i hnc hncl hnn hu
+    case hnde => simpa [processOneNew, he'] using h.ndEready
+    case hnep => simpa [processOneNew, he'] using h.nonEpoll
+    case hrdy => intro j hj; simp [processOneNew, he'] at hj; grind
+    case hc => intro j hj; simp [processOneNew, he', hj]
+    case hxl => simpa [processOneNew, he', v3, ht] using hla
+    case hxt => simpa [processOneNew, he', ht] using h.dtmoB
+    case hhead => intro _ hd; simp [processOneNew, he', v3, ht, hd]
+    case hxs => simp [processOneNew, he', hs]
+    all_goals simp [processOneNew, he', ht, hse]
+
+/-! ### MHD_cleanup_connections -/
+
+theorem others_freeOne (d : Daemon) (i : Id) : Others i d (freeOne d i) := by
+  unfold freeOne
+  refine ⟨rfl, rfl, rfl, rfl, ?_⟩; intro j hj; simp [hj]
+
+theorem inv_freeOne {d : Daemon} (h : Inv d) (i : Id) (hi : i ∈ d.cleanup) : Inv (freeOne d i) := by
+  have hnc : i ∉ d.conns := (h.disjClean i hi).1
+  have hns : i ∉ d.susp := (h.disjClean i hi).2
+  have hnn : i ∉ d.newL := fun hc => (h.disjNew i hc).2.2 hi
+  apply inv_offlist h i hnc hnn
+  case hnde => simp [freeOne]; exact nodup_without i h.ndEready
+  case hnep =>
+    intro he; simp [freeOne] at he
+    obtain ⟨e1, e2⟩ := h.nonEpoll he
+    simp [freeOne, e1, e2, without]
+  case hrdy => intro j hj; simp [freeOne] at hj; grind
+  case hc => intro j hj; simp [freeOne, hj]
+  case hxs => right; exact hns
+  case hxl => simp [freeOne]
+  case hxt => simp [freeOne]
+  all_goals simp [freeOne]
+
+theorem freeOne_not_ready (d : Daemon) (i : Id) : i ∉ (freeOne d i).eready ∧ i ∉ (freeOne d i).kq := by
+  simp [freeOne]
+
+/-! ### MHD_add_connection, the clock -/
+
+theorem inv_arrive {d : Daemon} (h : Inv d) (i : Id) (hi : i ∉ d.used) : Inv (arrive d i) := by
+  have a1 : i ∉ d.newL := fun x => hi (h.usedAll i (Or.inl x))
+  have a2 : i ∉ d.conns := fun x => hi (h.usedAll i (Or.inr (Or.inl x)))
+  have a3 : i ∉ d.susp := fun x => hi (h.usedAll i (Or.inr (Or.inr (Or.inl x))))
+  have a4 : i ∉ d.cleanup := fun x => hi (h.usedAll i (Or.inr (Or.inr (Or.inr x))))
+  have a5 : i ∉ d.normal := fun x => a2 ((h.connsIff i).2 (Or.inl x))
+  have a6 : i ∉ d.manual := fun x => a2 ((h.connsIff i).2 (Or.inr x))
+  constructor
+  all_goals simp only [arrive, set_fault, set_conns, set_normal, set_manual, set_susp, set_newL, set_cleanup,
+    set_used, set_eready, set_kq, set_cfg, set_now, set_c]
+  case nofault => exact h.nofault
+  case ndConns => exact h.ndConns
+  case ndNormal => exact h.ndNormal
+  case ndManual => exact h.ndManual
+  case ndSusp => exact h.ndSusp
+  case ndNew => exact List.nodup_cons.2 ⟨a1, h.ndNew⟩
+  case ndClean => exact h.ndClean
+  case ndEready => exact h.ndEready
+  case nonEpoll => exact h.nonEpoll
+  case dtmoB => exact h.dtmoB
+  case ready => exact h.ready
+  case connsIff => exact h.connsIff
+  case sorted =>
+    intro hd
+    refine sorted_congr ?_ (h.sorted hd)
+    intro a ha; have : a ≠ i := fun e => a5 (e ▸ ha); simp [this]
+  all_goals
+    intro j
+    facts h j
+    have hdb := h.dtmoB
+    by_cases e : j = i
+    · subst e; first | (simp; done) | (simp; grind) | grind
+    · first | (simp [e]; done) | (simp [e]; grind) | grind
+
+theorem inv_tick {d : Daemon} (h : Inv d) (ms : Nat) : Inv { d with now := d.now + ms } := by
+  constructor
+  case laLe => intro j; have := h.laLe j; simp; omega
+  all_goals first
+    | exact h.nofault | exact h.ndConns | exact h.ndNormal | exact h.ndManual | exact h.ndSusp
+    | exact h.ndNew | exact h.ndClean | exact h.ndEready | exact h.connsIff | exact h.normalT | exact h.manualT
+    | exact h.connsS | exact h.suspS | exact h.newT | exact h.disjNew | exact h.disjClean
+    | exact h.usedAll | exact h.ready | exact h.nonEpoll | exact h.sorted | exact h.tmoB | exact h.dtmoB
+
 end Mhd.Tmo
